@@ -134,6 +134,25 @@ impl Uint128 {
             r is Ok ==> r->Ok_0.0 as nat == muldiv(self.0 as nat, n.uv() as nat, d.uv() as nat),
     { unimplemented!() }
     pub const MAX: Uint128 = Uint128(u128::MAX);
+    pub fn saturating_sub(self, o: Uint128) -> (r: Uint128)
+        ensures r.0 == (if self.0 >= o.0 { (self.0 - o.0) as u128 } else { 0 })
+    { if self.0 >= o.0 { Uint128(self.0 - o.0) } else { Uint128(0) } }
+    pub fn saturating_add(self, o: Uint128) -> (r: Uint128)
+        ensures r.0 == (if self.0 + o.0 <= u128::MAX { (self.0 + o.0) as u128 } else { u128::MAX })
+    { if self.0 <= u128::MAX - o.0 { Uint128(self.0 + o.0) } else { Uint128(u128::MAX) } }
+    pub fn checked_mul(self, o: Uint128) -> (r: Result<Uint128, OverflowError>)
+        ensures
+            self.0 * o.0 <= u128::MAX ==> r == Ok::<Uint128, OverflowError>(Uint128((self.0 * o.0) as u128)),
+            self.0 * o.0 > u128::MAX ==> r is Err,
+    {
+        match self.0.checked_mul(o.0) { Some(v) => Ok(Uint128(v)), None => Err(OverflowError { dummy: 0 }) }
+    }
+    /// `Uint128::mul_floor(Decimal)`: floor(self * d) with a 256-bit intermediate; panics on overflow
+    #[verifier::external_body]
+    pub fn mul_floor(self, d: Decimal) -> (r: Uint128)
+        requires muldiv(self.0 as nat, d.0 as nat, DECIMAL_FRACTIONAL()) <= u128::MAX,
+        ensures r.0 as nat == muldiv(self.0 as nat, d.0 as nat, DECIMAL_FRACTIONAL()),
+    { unimplemented!() }
     #[verifier::external_body]
     pub fn to_string(&self) -> (r: String)
         ensures r@ == dec(self.0 as nat)
@@ -177,6 +196,25 @@ impl AddAssignSpecImpl<Uint128> for Uint128 {
 }
 impl core::ops::AddAssign<Uint128> for Uint128 {
     fn add_assign(&mut self, o: Uint128) { self.0 = self.0 + o.0; }
+}
+/// `Uint128 - Uint128` panics on underflow, `*` on overflow (uint128.rs)
+impl vstd::std_specs::ops::SubSpecImpl<Uint128> for Uint128 {
+    open spec fn obeys_sub_spec() -> bool { true }
+    open spec fn sub_req(self, o: Uint128) -> bool { self.0 >= o.0 }
+    open spec fn sub_spec(self, o: Uint128) -> Uint128 { Uint128((self.0 - o.0) as u128) }
+}
+impl core::ops::Sub<Uint128> for Uint128 {
+    type Output = Uint128;
+    fn sub(self, o: Uint128) -> (r: Uint128) { Uint128(self.0 - o.0) }
+}
+impl vstd::std_specs::ops::MulSpecImpl<Uint128> for Uint128 {
+    open spec fn obeys_mul_spec() -> bool { true }
+    open spec fn mul_req(self, o: Uint128) -> bool { self.0 * o.0 <= u128::MAX }
+    open spec fn mul_spec(self, o: Uint128) -> Uint128 { Uint128((self.0 * o.0) as u128) }
+}
+impl core::ops::Mul<Uint128> for Uint128 {
+    type Output = Uint128;
+    fn mul(self, o: Uint128) -> (r: Uint128) { Uint128(self.0 * o.0) }
 }
 impl FromSpecImpl<u128> for Uint128 {
     open spec fn obeys_from_spec() -> bool { true }
@@ -222,6 +260,15 @@ impl Decimal {
     #[verifier::external_body]
     pub fn to_string(&self) -> (r: String)
         ensures r@ == decimal_str(self.0 as nat)
+    { unimplemented!() }
+    pub const fn one() -> (r: Decimal) ensures r.0 == 1_000_000_000_000_000_000 { Decimal(1_000_000_000_000_000_000) }
+    pub fn is_zero(&self) -> (r: bool) ensures r == (self.0 == 0) { self.0 == 0 }
+    /// decimal.rs `inv`: None for zero, else 10^36 / atomics (floor)
+    #[verifier::external_body]
+    pub fn inv(&self) -> (r: Option<Decimal>)
+        ensures
+            self.0 == 0 ==> r is None,
+            self.0 != 0 ==> r is Some && r->Some_0.0 as nat == (1_000_000_000_000_000_000_000_000_000_000_000_000nat / (self.0 as nat)),
     { unimplemented!() }
 }
 
